@@ -1084,7 +1084,14 @@ where
         let mom_plus = mom_prime.clone();
         let grad_minus = grad_prime.clone();
         let grad_plus = grad_prime.clone();
-        let alpha_prime = T::min(T::one(), (joint - joint_0).exp());
+        // `Float::min` ignores a NaN operand: a leaf outside the target's domain (NaN joint) must
+        // count as acceptance probability 0, not 1, or the step size adaptation diverges.
+        let energy_change = joint - joint_0;
+        let alpha_prime = if energy_change.is_nan() {
+            T::zero()
+        } else {
+            T::min(T::one(), energy_change.exp())
+        };
         let n_alpha_prime = 1_usize;
         (
             position_minus,
